@@ -485,3 +485,78 @@ def register(gen, T):
         out.append(f"/-- property names matched by parse_static_sampler -/\ndef samplerProps : List String := {names_list([n for names, _, _, _ in samp_arms for n in names])}\n")
         out.append(T.footer("PipelineProps"))
         return "".join(out)
+
+
+    @gen("UsageLoop")
+    def usage_loop():
+        """ir/src/usage_analysis.rs: `GlobalUsageAnalysis::recurse` is an iterative sweep (`loop { modified = false; for key
+        in &keys { .. } if !modified { break; } }`) that calls nothing defined in this file; no function of
+        `impl GlobalUsageAnalysis` calls itself or another function of the impl block except `calculate` (the entry,
+        which runs `calculate_local` and then `recurse` once).  The only recursion in the file is the structural walk
+        `gather_usage_for_*` over the finite IR tree."""
+        from rustsrc import lean_str, normws, fn_body, impl_fn_body, ExtractError
+        F = "ir/src/usage_analysis.rs"
+        text = T.src(F)
+
+        def body(name, impl=True):
+            try:
+                return normws(impl_fn_body(text, r"GlobalUsageAnalysis", name) if impl else fn_body(text, name))
+            except (ExtractError, Exception):
+                return ""
+        rec = body("recurse")
+        calc = body("calculate")
+        fns = re.findall(r"\bfn\s+([A-Za-z0-9_]+)", text)
+        # the functions defined inside `impl GlobalUsageAnalysis { .. }`
+        m = re.search(r"impl\s+GlobalUsageAnalysis\s*\{", text)
+        impl_fns = []
+        impl_text = ""
+        if m:
+            from rustsrc import matching
+            j = matching(text, m.end() - 1)
+            impl_text = text[m.end():j]
+            impl_fns = re.findall(r"\bfn\s+([A-Za-z0-9_]+)", impl_text)
+
+        def calls(b):
+            """names of functions of this file that the body `b` calls (`name(`, `Self::name(`, `.name(`)"""
+            return sorted({f for f in fns if re.search(r"(?<![A-Za-z0-9_])" + re.escape(f) + r"\s*\(", b)})
+        call_rows = []
+        for f in impl_fns:
+            try:
+                b = normws(impl_fn_body(text, r"GlobalUsageAnalysis", f))
+            except Exception:
+                b = ""
+            call_rows.append((f, calls(b)))
+        facts = {
+            # the closure is computed by an ITERATIVE sweep: no function of this file is called from `recurse` ...
+            "recurseCallsNoLocalFunction": rec != "" and calls(rec) == [],
+            # ... whose whole body is: snapshot of the keys, `loop { modified = false; for key in &keys {..}; if !modified break }`, self
+            "keysSnapshotThenLoop": bool(re.search(r"^let keys = self\.0\.keys\(\)\.cloned\(\)\.collect::<Vec<_>>\(\); loop \{ let mut modified = false; for key in &keys \{", rec)),
+            "loopEndsWhenUnmodified": bool(re.search(r"\} if !modified \{ break; \} \} self$", rec)) and len(re.findall(r"\bbreak\b", rec)) == 1
+                                      and len(re.findall(r"\bloop\b|\bwhile\b", rec)) == 1 and not re.search(r"\bcontinue\b|\breturn\b", rec),
+            # a key's set only grows, and `modified` is raised exactly when a set grew (the termination measure)
+            "newSetStartsFromCurrent": bool(re.search(r"let current_set = self\.0\.get\(key\)\.unwrap\(\); let mut new_set = current_set\.required\.clone\(\);", rec)),
+            "newSetAddsMembersSets": bool(re.search(r"for other in &current_set\.required \{ new_set\.extend\(&self\.0\.get\(other\)\.unwrap\(\)\.required\); \}", rec)),
+            "modifiedIffGrown": bool(re.search(r"if new_set\.len\(\) > current_set\.required\.len\(\) \{ let stored_analysis = self\.0\.get_mut\(key\)\.unwrap\(\); stored_analysis\.required = new_set; modified = true; \}", rec))
+                                and len(re.findall(r"modified = ", rec)) == 2,
+            # `calculate` = local pass, then the sweep, once
+            "calculateRunsLocalThenRecurse": calc == "let result = GlobalUsageAnalysis::calculate_local(module); result.recurse()",
+            # the impl block consists of the four known functions (a new helper such as a depth-first `resolve_symbol` shows here)
+            "implFunctionsAreTheReviewedOnes": impl_fns == ["calculate", "calculate_local", "recurse", "get_usage_for_function"],
+            # no function of the impl block calls itself
+            "noImplFunctionCallsItself": all(f not in c for f, c in call_rows) and impl_fns != [],
+        }
+        out = [T.header("UsageLoop", [F])]
+        out.append("/-- syntactic facts about `GlobalUsageAnalysis::recurse` and its impl block (regexes over the comment-stripped,\n"
+                   "    whitespace-normalised source) -/\n")
+        out.append("structure UsageLoopShape where\n" + "".join(f"  {k} : Bool\n" for k in facts) + "  deriving DecidableEq, Repr\n\n")
+        out.append("def usageLoopShape : UsageLoopShape := { " + ", ".join(f"{k} := {'true' if v else 'false'}" for k, v in facts.items()) + " }\n\n")
+        out.append("/-- the closure of the usage relation is computed by iteration, not by recursion over the call graph -/\n"
+                   "def usageClosureIsIterative : Bool :=\n  usageLoopShape.recurseCallsNoLocalFunction && usageLoopShape.keysSnapshotThenLoop && usageLoopShape.loopEndsWhenUnmodified &&\n"
+                   "  usageLoopShape.implFunctionsAreTheReviewedOnes && usageLoopShape.noImplFunctionCallsItself\n\n")
+        out.append("/-- functions of `impl GlobalUsageAnalysis` with the functions of usage_analysis.rs each one calls -/\n"
+                   "def implCalls : List (String × List String) := [\n" +
+                   ",\n".join(f"  ({lean_str(f)}, [{', '.join(lean_str(c) for c in cs)}])" for f, cs in call_rows) + "\n]\n\n")
+        out.append("/-- every function defined in usage_analysis.rs, in source order -/\n"
+                   f"def fileFunctions : List String := [{', '.join(lean_str(f) for f in fns)}]\n")
+        out.append(T.footer("UsageLoop"))
+        return "".join(out)
